@@ -579,6 +579,24 @@ void run_case(const uint8_t *data, size_t size, CaseCtx &ctx) {
   }
 
   // ---- call graph ------------------------------------------------------------------------------
+  // (tail choice) the order in which the CFGs are listed is the caller's business: half of the time
+  // a permutation of the declaration order (vertex ids of the call graph follow the listing order)
+  {
+    unsigned pc = t.tail_u8();
+    if ((pc & 1) && cfgs.size() > 1) {
+      unsigned k = pc >> 1;
+      std::string ord;
+      for (size_t i = cfgs.size(); i > 1; i--) {
+        std::swap(cfgs[i - 1], cfgs[k % i]);
+        k /= (unsigned)i;
+      }
+      for (auto &c : cfgs)
+        ord += " " + c.get_func_decl().get_func_name();
+      ctx.log << "cfgs listed as:" << ord << "\n";
+      ctx.mixs(ord);
+      R().cls("cfg_listing_permuted");
+    }
+  }
   cg_t cgraph(cfgs);
   std::vector<unsigned> entries;
   {
